@@ -9,7 +9,8 @@ Reset == [o |-> "reset", mode |-> "ip4", filter |-> "all"]
 Known == [o |-> "add_enr", rec |-> "p1:1:v4"]
 Init == t = T0 /\ resp = <<>> /\ consumed = <<>> /\ hist = <<Reset, Known>> /\ res = [t |-> T0, ret |-> "ok", out |-> <<>>]
 Ops == (IF t.n < MAXREQ THEN {[o |-> "request_in", peer |-> p, from |-> f, n |-> t.n + 1, body |-> [t |-> "talk"]] : p \in {"p1", "p4"}, f \in {"v4", "other"}} ELSE {})
-       \cup {[o |-> "talk_respond", tr |-> k] : k \in t.held} \cup {[o |-> "talk_drop", tr |-> k] : k \in t.held}
+       \cup {[o |-> "talk_respond", tr |-> k] : k \in t.held} \cup {[o |-> "talk_respond", tr |-> k, empty |-> TRUE] : k \in t.held}
+       \cup {[o |-> "talk_drop", tr |-> k] : k \in t.held}
        \cup (IF t.running THEN {[o |-> "shutdown"]} ELSE {})
 Do(op) == /\ res' = TStep(t, op) /\ t' = res'.t
           /\ resp' = resp \o res'.out
@@ -22,7 +23,7 @@ View == <<t, resp, consumed>>
 Count(k) == Cardinality({i \in 1..Len(resp) : resp[i][1] = k})
 OnceInv == \A k \in 1..t.n : Count(k) <= 1
 ExactInv == \A i \in 1..Len(consumed) : consumed[i].running =>
-               \E j \in 1..Len(resp) : resp[j] = <<consumed[i].tr, IF consumed[i].how = "talk_respond" THEN "answer" ELSE "empty">>
+               \E j \in 1..Len(resp) : resp[j][1] = consumed[i].tr /\ (consumed[i].how = "talk_drop" => resp[j][2] = "empty")
 HeldSilent == \A k \in t.held : Count(k) = 0
 Emit == DEPTH = 0 \/ Len(hist) <= DEPTH \/ PrintT(<<"REPLAY", ToJson(hist)>>)
 GoalDropAfterShutdown == ~(~t.running /\ \E i \in 1..Len(consumed) : ~consumed[i].running /\ consumed[i].how = "talk_drop")
